@@ -8,7 +8,7 @@
                  loads a row over a written-but-never-loaded reference; the model mirrors the damaged state as far as
                  the recorded replays need, theorems hold for histories without a dirty step;
    * declined  : outside the modelled domain (e.g. a deleted object used as a reference value); comparison stops. *)
-Require Import PonyV.Model.SessionBase PonyV.Model.SessionDb.
+Require Import PonyV.Model.SessionBase PonyV.Model.SessionDb PonyV.Gen.SessionFlags.
 
 (* ------------------------------------------------------------------------------------------------ operations *)
 
@@ -932,7 +932,8 @@ Definition coll_assign_gen (del : sess -> oid -> out unit) (sch : schema) (s : s
                        end in
             let sd3 := match to_remove with
                        | [] => sd2
-                       | _ => mkSd items (diff_nat (sd_added sd2) to_remove) (union_nat (sd_removed sd2) (diff_nat to_remove (sd_added sd2))) (sd_full sd2) cnt
+                       | _ => if negb assign_rebooks_one_to_many then sd2 else      (* since 11753a1 only many-to-many records to_remove here *)
+                              mkSd items (diff_nat (sd_added sd2) to_remove) (union_nat (sd_removed sd2) (diff_nat to_remove (sd_added sd2))) (sd_full sd2) cnt
                        end in
             Ok (set_modified (modcoll_add (put_sd s3 o a sd3) o a) true) tt
           end
@@ -963,8 +964,13 @@ Definition coll_remove_gen (del : sess -> oid -> out unit) (sch : schema) (s : s
           let sd := get_sd s2 o a in
           if Nat.eqb (s_dirty s2) O && existsb (fun i => mem_nat i (sd_items sd)) items1 then Err (mark_dirty s2 23) EAssertion
           else
-          let s3 := put_sd s2 o a (bookkeeping_remove sd items1 (opt_add (sd_count sd) (- Z.of_nat (length items1)))) in
-          Ok (set_modified (modcoll_add s3 o a) true) tt
+          (* one-to-many: reverse_remove (reached through the items) has already updated this SetData.  Before commit 11753a1 the code
+             recorded the removal a second time (count one too low: recorded defect); since then it returns here.
+             Gen/SessionFlags.v says which shape /repo has. *)
+          if remove_rebooks_one_to_many then
+            let s3 := put_sd s2 o a (bookkeeping_remove sd items1 (opt_add (sd_count sd) (- Z.of_nat (length items1)))) in
+            Ok (set_modified (modcoll_add s3 o a) true) tt
+          else Ok s2 tt
         end
       | None => Ok s1 tt
       end
@@ -1301,7 +1307,12 @@ Definition setmany_op (sch : schema) (s : sess) (h : nat) (kw : list (nat * arg)
             (* Entity.set updates reverse sides, then collections, and only then vals: with a reference and a collection
                argument in one call the collection code observes the stale reference; not modelled *)
             if match cavs with [] => false | _ => existsb (fun p => attr_is_ref sch e (fst p)) avs' end then (mark_declined s, RDecline)
-            else if conflict then ((if changed then mark_dirty s_idx_only 2 else s2), RErr ECacheIndex)
+            else if conflict then
+              (* update_simple_index raised.  Entity.set defines an undo closure (status, wbits, queue, index changes) but - recorded defect -
+                 never appends it to undo_funcs: the written bits and earlier index updates stay.  With the proposed repair the
+                 closure runs and only cache.modified stays set.  Gen/SessionFlags.v says which shape /repo has. *)
+              if entity_set_registers_undo then (set_modified s1 (s_modified s1 || negb (status_eqb (obj_st s1 o) SCreated)), RErr ECacheIndex)
+              else ((if changed then mark_dirty s_idx_only 2 else s2), RErr ECacheIndex)
             else
               (* success path, atomically per attribute *)
               let s3 := fold_left (setmany_apply sch o e) avs' s2 in
@@ -1579,7 +1590,8 @@ Definition getby_op (sch : schema) (s : sess) (e a : nat) (v : arg) : sess * res
             match auto_flush sch s with
             | Err s1 er => (s1, RErr er)
             | Ok s1 _ =>
-              let rows := query_rows s s1 e a cv in
+              (* the arguments are bound before the auto-flush (recorded defect: a new object as criterion has no primary key yet) or after it *)
+              let rows := query_rows (if get_binds_before_flush then s else s1) s1 e a cv in
               let uniq := a_uniq at_ && negb (is_vnone cv) in
               if negb uniq && Nat.leb 2 (length rows) then (s1, RErr EMultiple)
               else
@@ -1611,7 +1623,7 @@ Definition select_op (sch : schema) (s : sess) (e a : nat) (v : arg) : sess * re
           match auto_flush sch s with
           | Err s1 er => (s1, RErr er)
           | Ok s1 _ =>
-            match load_rows sch s1 e (query_rows s s1 e a cv) with
+            match load_rows sch s1 e (query_rows (if select_binds_before_flush then s else s1) s1 e a cv) with
             | Err s2 er => (s2, RErr er)
             | Ok s2 os => objs_res s2 os
             end
